@@ -703,6 +703,8 @@ def is_comptime_expression(node: ast.AST) -> ComptimeExpr | None:
         and isinstance(node.func, ast.Name)
         and node.func.id in ("py", "comptime")
     ):
+        if node.keywords:
+            raise GuppyError(UnsupportedError(node.keywords[0], "Keyword arguments"))
         match node.args:
             case []:
                 raise GuppyError(EmptyComptimeExprError(node))
